@@ -93,7 +93,7 @@ func (e *Engine) canInline(fn *ssa.Function) bool {
 		return false
 	}
 	if fn.Pkg == nil || !strings.HasPrefix(fn.Pkg.Pkg.Path(), strings.TrimSuffix(modPrefix, "/")) {
-		if !e.w.inlineStd[funcKey(fn)] {
+		if !inlinableStd(funcKey(fn)) {
 			return false
 		}
 	}
@@ -593,4 +593,14 @@ func (e *Engine) lookup(fr *Frame, st *State, x *ssa.Lookup) Val {
 
 func (e *Engine) stdModel(st *State, key string, args []Val, rt types.Type) (Val, bool) {
 	return nil, false
+}
+
+// inlinableStd: dependency functions whose (loop-free) bodies are executed symbolically like repo code.
+func inlinableStd(key string) bool {
+	for _, p := range []string{"encoding/binary.bigEndian.", "encoding/binary.littleEndian.", "golang.org/x/image/math/fixed."} {
+		if strings.HasPrefix(key, p) {
+			return true
+		}
+	}
+	return false
 }
